@@ -22,6 +22,15 @@ for p in props:
     else:
         na.append({"property_id": pid, "reason": (e or {}).get('reason', "not yet under contract in this revision of the machinery (work in progress; see DESIGN.md section 4)")})
 hooks = src['hooks']
+# every commit in /repo that adds or updates the guarded contract files (subject starts with "verif:"), oldest first
+try:
+    import subprocess
+    log = subprocess.run(['git', '-C', '/repo', 'log', '--format=%h %s'], capture_output=True, text=True).stdout.splitlines()
+    commits = [l.split()[0] for l in log if l.split(' ', 1)[1].startswith('verif:')]
+    if commits:
+        hooks = dict(hooks, source_commits=list(reversed(commits)))
+except Exception:
+    pass
 m = {"version": 1, "setup_cmd": src['setup_cmd'], "hooks": hooks, "engines": src['engines'], "checks": checks, "notes": src['notes'], "not_applicable": na}
 json.dump(m, open('/verif/MANIFEST.json', 'w'), indent=1)
 print(len(checks), "checks,", len(na), "not applicable")
